@@ -356,6 +356,11 @@ def correspondence(ctx):
         rep.fail("broken-correspondence", "chi2fcn driver failed", "C10:chi2fcn-driver", observed=err[-1500:], theorem="decode tie")
     else:
         got = json.loads(out)
+        odd = [[j, g] for j, g in zip(jobs, got) if any(not isinstance(q, int) for q in g)]
+        if odd:
+            rep.fail("broken-correspondence", "chi2_fcn raised or produced a non-integer parameter on integer exponents: %r" % (odd[:3],),
+                     "C10:decode-corr", observed=odd[:5], theorem="decode vs chi2_fcn")
+            got = [g if all(isinstance(q, int) for q in g) else ["raise", "odd"] for g in got]
         terms = "; ".join("(%s, %s, %s)" % (signs_v(sg), zl(xs), zl(g)) for (sg, xs), g in zip(jobs, got) if not (g and g[0] == "raise"))
         v = ("Require Import String.\nFrom ESRV Require Import Common.XZ Common.Corr Model.Optimise.\nOpen Scope Z_scope.\n"
              "Definition cs : list (option (list sgn) * list Z * list Z) := [%s].\n"
@@ -363,7 +368,7 @@ def correspondence(ctx):
         rc, o = esrv.coq_run(v)
         flat = " ".join(o.split()).replace("%string", "")
         rep.traces += len(jobs)
-        if rc != 0 or '("C10D", [])' not in flat or any(g and g[0] == "raise" for g in got):
+        if rc != 0 or '("C10D", [])' not in flat:
             rep.fail("broken-correspondence", "chi2_fcn's +-10**x decoding differs from Model/Optimise.v decode", "C10:decode-corr",
                      observed=flat[-800:], theorem="decode vs chi2_fcn")
     # --- main(): rows of negloglike_comp<n>.dat
